@@ -173,11 +173,28 @@ func (a *LPAgent) Step(s *Sim) {
 		u := s.user(r)
 		p := pick(r, pools)
 		shareDenom := ammtypes.GetPoolShareDenom(p.PoolId)
+		whale := false
+		if r.Float64() < 0.08 {
+			// the pool's largest liquidity provider pulls most of its liquidity (what backs open
+			// positions and pending settlements leaves with it)
+			best := sdkmath.ZeroInt()
+			for _, cand := range s.W.Users {
+				cc := s.N0.App.CommitmentKeeper.GetCommitments(s.Ctx(), cand.Addr)
+				if c := cc.GetCommittedAmountForDenom(shareDenom); c.GT(best) {
+					best, u = c, cand
+				}
+			}
+			whale = best.IsPositive()
+		}
 		cm := s.N0.App.CommitmentKeeper.GetCommitments(s.Ctx(), u.Addr)
 		committed := cm.GetCommittedAmountForDenom(shareDenom)
-		if committed.IsPositive() && r.Float64() < 0.45 {
+		if committed.IsPositive() && (whale || r.Float64() < 0.45) {
 			// exit
 			frac := []float64{1e-6, 0.01, 0.1, 0.5, 1.0}[r.IntN(5)]
+			if whale {
+				frac = 0.3 + 0.65*r.Float64()
+				s.Stats.Probe("largest_provider_exit_submitted")
+			}
 			sh := sdkmath.LegacyNewDecFromInt(committed).Mul(decFromFloat(frac)).TruncateInt()
 			if sh.IsZero() {
 				sh = sdkmath.OneInt()
